@@ -1,26 +1,28 @@
 SPECIFICATION Spec
 CONSTANTS
-  Family = "fetch"
-  Topos = {1100, 2100}
+  Family = "big"
+  Topos = {2100}
   HotReads = {FALSE}
-  SBs = {"ok", "err", "old", "tmf", "tmu"}
-  Layouts = {1, 2}
-  Sizes = {6, 3}
-  Offsets = {0, 1}
+  SBs = {"ok", "err"}
+  Layouts = {1}
+  Sizes = {1, 2, 3, 5, 7, 9}
+  Offsets = {0, 2}
   Orders = {"desc", "asc"}
   Hints = {"", "f"}
-  FBKinds = {"ok", "openerr", "brk", "drop", "empty", "extra", "reorder"}
-  MaxFaulty = 2
+  FBKinds = {"ok", "brk"}
+  MaxFaulty = 1
   HintKeyed = FALSE
   Shuffles = {FALSE}
   ShardReps = 0
   ShardProcs = 0
   ShardFlips = 0
   InPlace = FALSE
-  Big = 0
+  Big <- BigFull
   PosWidth = 0
 INVARIANT Honest
 INVARIANT OnlyWhoAnswers
 INVARIANT AllUpIsComplete
 INVARIANT FetchIsGreedy
-INVARIANT Emit
+INVARIANT BigRuleIsRef
+INVARIANT BigCountsExact
+INVARIANT EmitBig
